@@ -166,21 +166,34 @@ let check inp obs =
           ("the Go type cannot hold this spec-defined value (" ^ e ^ "); reference encoding " ^ hex_of_bytes enc)
       | genc :: gdec :: rest ->
         let is_hdr = (name = "Header") in
+        let is_ph = (name = "PrimHeader") and is_pj = (name = "PrimJustification") in
         let nodec = (name = "LocalizedPayload") in
-        let mh = if is_hdr then fst (header_hash (fresh v)) else [] in
-        let mhash = if is_hdr then [hex_of_bytes mh] else [] in
-        let model = String.concat " " ([hex_of_bytes enc; (if nodec then "-" else dec)] @ mhash) in
+        (* finding generic-header-digest-untagged: the primitives' generic header encodes its
+           digest items without the variant index, and its decoder panics on any item *)
+        let guard = (is_ph && has_digest_items v) || (is_pj && just_has_digest_items v) in
+        let menc = if is_ph then encode_untagged v else if is_pj then encode_just_untagged v else enc in
+        let mdec = if guard then "panic" else dec in
+        let ref_hash = if is_hdr || is_ph then blake2b_256 enc else [] in
+        let mh = if is_hdr then fst (header_hash (fresh v)) else if is_ph then prim_header_hash v else [] in
+        let mhash = if is_hdr then [hex_of_bytes mh; hex_of_bytes mh; hex_of_bytes mh]
+                    else if is_ph then [hex_of_bytes mh] else [] in
+        let model = String.concat " " ([hex_of_bytes menc; (if nodec then "-" else mdec)] @ mhash) in
         let p_enc = (bytes_of_hex genc = enc) in
         let p_dec = nodec || (gdec = of_val t v) in
-        (* spec_hash v = blake2b_256 (encode header v); by C14_header_hash it is what the model's
-           Hash() of a fresh header returns, so it is computed once *)
-        let p_hash = (not is_hdr) || (match rest with [h] -> bytes_of_hex h = mh | _ -> false) in
+        (* the specified hash is blake2b_256 of the reference encoding; every hash reported (built
+           header, header decoded from the encoding, deep copy) must equal it *)
+        let p_hash = (not (is_hdr || is_ph))
+                     || (rest <> [] && List.for_all (fun h -> h <> "err" && bytes_of_hex h = ref_hash) rest
+                         && List.length rest = List.length mhash) in
         let why = String.concat "," (List.filter (fun x -> x <> "")
           [ (if p_enc then "" else "encoding differs from the reference encoder");
             (if p_dec then "" else "decode(encode v) <> v");
             (if p_hash then "" else "Hash() <> blake2b_256(encoding)") ]) in
-        { prop_ok = p_enc && p_dec && p_hash; model_eq = (model = obs); nontrivial = true; finding = "-";
-          tags = base_tags; detail = if why = "" && model = obs then "" else why ^ " model=" ^ (if String.length model > 300 then String.sub model 0 300 ^ "..." else model) }
+        let prop = p_enc && p_dec && p_hash in
+        { prop_ok = prop; model_eq = (model = obs); nontrivial = true;
+          finding = (if (not prop) && guard && model = obs then "generic-header-digest-untagged" else "-");
+          tags = base_tags ^ (if is_ph || is_pj then (if guard then "," ^ name ^ "-with-digest-items" else "," ^ name ^ "-no-digest-items") else "");
+          detail = if why = "" && model = obs then "" else why ^ " model=" ^ (if String.length model > 300 then String.sub model 0 300 ^ "..." else model) }
       | _ -> bad ~tags:(base_tags ^ ",go-error") ("unexpected observation " ^ obs)
     end
   | ["dec"; name; hx] ->
@@ -249,6 +262,55 @@ let check inp obs =
          detail = if p_enc && p_rt && model = obs then "" else
            (if not p_enc then "request encoding is not an encoding of the request for the reference proto3 decoder" else "request does not round-trip") ^ " model=" ^ model }
      | _ -> bad ~tags:"breq,go-error" ("unexpected observation " ^ obs))
+  | ["breqp"; rd; from; dir; mx; _perm] ->
+    let fb = if String.sub from 0 2 = "h:" then FromHash (bytes_of_hex (String.sub from 2 (String.length from - 2)))
+             else FromNumber (n_of_hex (String.sub from 2 (String.length from - 2))) in
+    let r = { rq_data = n_of_hex rd; rq_from = fb; rq_dir = n_of_hex dir;
+              rq_max = (if mx = "none" then None else Some (n_of_hex mx)) } in
+    let show (q : block_request) = String.concat " " [ hex_of_n q.rq_data;
+        (match q.rq_from with FromHash h -> "h:" ^ hex_of_bytes h | FromNumber k -> "n:" ^ hex_of_n k);
+        hex_of_n q.rq_dir; (match q.rq_max with None -> "none" | Some m -> hex_of_n m) ] in
+    let inside = request_ok r in
+    (match o with
+     | genc :: rest ->
+       let bs = bytes_of_hex genc in
+       (* the re-ordered bytes must carry exactly the fields of the reference encoding, in some
+          order (C14_request_any_order then says they decode to the request) *)
+       let is_perm = (match parse bs with
+         | Some fs -> List.sort compare fs = List.sort compare (req_fields r)
+         | None -> false) in
+       let mdec = (match decode_request bs with Ok q -> show q | _ -> "err") in
+       let model = genc ^ " " ^ mdec in
+       let p_perm = is_perm && ((not inside) || mdec = show r) in
+       let p_rt = (not inside) || (String.concat " " rest = show r) in
+       { prop_ok = p_perm && p_rt; model_eq = (model = obs); nontrivial = true; finding = "-";
+         tags = "breqp" ^ (if inside then ",breqp-in-domain" else ",breqp-out-of-domain")
+                ^ (if bs = encode_request r then ",breqp-identity" else if bs = encode_request_sorted r then ",breqp-sorted" else ",breqp-other-order");
+         detail = if p_perm && p_rt && model = obs then "" else
+           (if not is_perm then "the re-ordered encoding does not carry the reference fields" else "a request with re-ordered fields does not decode to the request") ^ " model=" ^ model }
+     | _ -> bad ~tags:"breqp,go-error" ("unexpected observation " ^ obs))
+  | ["breqraw"; spec] ->
+    (* a request written field by field: the bytes must be the reference writer's, the decoded
+       message the reference decoder's (every branch of decode_request is reached here) *)
+    let enc = if spec = "-" then [] else List.concat_map (fun fld ->
+        match String.index_opt fld ':' with
+        | Some i ->
+          let key = String.sub fld 0 i in
+          let rest = String.sub fld (i + 1) (String.length fld - i - 1) in
+          if key = "x" then bytes_of_hex rest else
+          let k = n_of_hex key in
+          let body = String.sub rest 1 (String.length rest - 1) in
+          enc_fields [if rest.[0] = 'v' then (k, WVarint (n_of_hex body)) else (k, WBytes (bytes_of_hex body))]
+        | None -> fail "C14: bad field %s" fld) (String.split_on_char ',' spec) in
+    let show (q : block_request) = String.concat " " [ hex_of_n q.rq_data;
+        (match q.rq_from with FromHash h -> "h:" ^ hex_of_bytes h | FromNumber k -> "n:" ^ hex_of_n k);
+        hex_of_n q.rq_dir; (match q.rq_max with None -> "none" | Some m -> hex_of_n m) ] in
+    let res = decode_request enc in
+    let model = hex_of_bytes enc ^ " " ^ (match res with Ok q -> show q | _ -> "err") in
+    { prop_ok = true; model_eq = (model = obs); nontrivial = true; finding = "-";
+      tags = "breqraw," ^ (match res with Ok _ -> "breqraw-ok" | Err (S O) -> "breqraw-err-parse"
+                           | Err (S (S O)) -> "breqraw-err-no-from" | Err _ -> "breqraw-err-number-length" | _ -> "breqraw-?");
+      detail = if model = obs then "" else "BlockRequestMessage.Decode differs from the reference decoder; model=" ^ model }
   | ["bresp"; vs] ->
     let v = to_val block_data_ty (parse_tree vs) in
     let ds = (match v with VL l -> List.map bd_of_val l | _ -> raise (Shape "list")) in
@@ -278,4 +340,53 @@ let check inp obs =
   with Shape m -> { prop_ok = true; model_eq = false; nontrivial = false; finding = "-"; tags = "driver-shape";
                     detail = "trace value does not fit the Gallina schema: " ^ m }
 
-let () = run_driver check
+(* ---- vm_compute cross-check: the reference encodings / hashes recomputed inside Coq ---- *)
+let rec coq_val (v : val0) : string = match v with
+  | VN n -> "VN " ^ coq_n n
+  | VB b -> "VB " ^ coq_bytes b
+  | VL l -> "VL [" ^ String.concat "; " (List.map coq_val l) ^ "]"
+  | VO None -> "VO None"
+  | VO (Some x) -> "VO (Some (" ^ coq_val x ^ "))"
+  | VS l -> "VS [" ^ String.concat "; " (List.map coq_val l) ^ "]"
+  | VE (i, x) -> "VE " ^ coq_n i ^ " (" ^ coq_val x ^ ")"
+
+let coq inp obs =
+  (* large literal terms are slow to type-check: only moderately sized cases are rendered *)
+  if String.length inp > 1500 || String.length obs > 3000 then None else
+  let f = split_ws inp and o = split_ws obs in
+  try
+  match f, o with
+  | ["val"; name; vs], genc :: _ :: rest when String.length genc < 10 || String.sub genc 0 4 <> "err:" ->
+    let t = ty_of name in
+    let v = to_val t (parse_tree vs) in
+    let is_ph = (name = "PrimHeader") and is_pj = (name = "PrimJustification") in
+    let encf = if is_ph then "encode_untagged" else if is_pj then "encode_just_untagged" else "encode t" in
+    let hash = (match name, rest with
+      | "Header", h :: _ -> Printf.sprintf " && bytes_eqb (fst (header_hash (fresh v))) %s" (coq_bytes (bytes_of_hex h))
+      | "PrimHeader", [h] -> Printf.sprintf " && bytes_eqb (prim_header_hash v) %s" (coq_bytes (bytes_of_hex h))
+      | _ -> "") in
+    Some (Printf.sprintf "match type_of_name %s with Some t => let v := %s in has_type t v && bytes_eqb (%s v) %s && (match decode_all t (encode t v) with Some w => bytes_eqb (encode t w) (encode t v) | None => false end)%s | None => false end"
+      (coq_bytes (bytes_of_string name)) (coq_val v) encf (coq_bytes (bytes_of_hex genc)) hash)
+  | ["hashmut"; v1s; v2s], [g0; g1; genc] ->
+    let v1 = to_val header (parse_tree v1s) and v2 = to_val header (parse_tree v2s) in
+    Some (Printf.sprintf "let '(h0, hd) := header_hash (fresh (%s)) in let v2 := %s in bytes_eqb h0 %s && bytes_eqb (fst (header_hash (set_fields hd v2))) %s && bytes_eqb (encode header v2) %s"
+      (coq_val v1) (coq_val v2) (coq_bytes (bytes_of_hex g0)) (coq_bytes (bytes_of_hex g1)) (coq_bytes (bytes_of_hex genc)))
+  | ["breq"; rd; from; dir; mx], genc :: _ ->
+    let fb = if String.sub from 0 2 = "h:" then "FromHash " ^ coq_bytes (bytes_of_hex (String.sub from 2 (String.length from - 2)))
+             else "FromNumber " ^ coq_n (n_of_hex (String.sub from 2 (String.length from - 2))) in
+    Some (Printf.sprintf "bytes_eqb (encode_request (mk_req %s (%s) %s %s)) %s"
+      (coq_n (n_of_hex rd)) fb (coq_n (n_of_hex dir))
+      (if mx = "none" then "None" else "(Some " ^ coq_n (n_of_hex mx) ^ ")") (coq_bytes (bytes_of_hex genc)))
+  | ["bresp"; vs], [genc; _] ->
+    let v = to_val block_data_ty (parse_tree vs) in
+    let ds = (match v with VL l -> List.map bd_of_val l | _ -> raise (Shape "list")) in
+    let ob = function Some b -> "(Some " ^ coq_bytes b ^ ")" | None -> "None" in
+    let bd (d : block_data) = Printf.sprintf "mk_bd %s %s %s %s %s %s" (coq_bytes d.bd_hash)
+      (match d.bd_header with Some h -> "(Some (" ^ coq_val h ^ "))" | None -> "None")
+      (match d.bd_body with Some l -> "(Some [" ^ String.concat "; " (List.map coq_bytes l) ^ "])" | None -> "None")
+      (ob d.bd_receipt) (ob d.bd_mq) (ob d.bd_just) in
+    Some (Printf.sprintf "bytes_eqb (encode_response [%s]) %s" (String.concat "; " (List.map bd ds)) (coq_bytes (bytes_of_hex genc)))
+  | _ -> None
+  with Shape _ -> None
+
+let () = run_driver ~coq check
